@@ -118,13 +118,14 @@ Fixpoint val_at (e : sexpr A) (i : nat) : option A :=
   | AbsE e1 => option_map (unsem "abs") (val_at e1 i)
   | AttrE n e1 => option_map (attrsem n) (val_at e1 i)
   | CallE e1 args kw => option_map (fun a => callsem a args kw) (val_at e1 i)
+  | FunE g e1 => option_map g (val_at e1 i)
   end.
 
 (* the iterable operands of an expression *)
 Fixpoint leaves (e : sexpr A) : list (lseq A) :=
   match e with
   | Leaf s => [s]
-  | Un _ e1 | BinS _ e1 _ | AbsE e1 | AttrE _ e1 | CallE e1 _ _ => leaves e1
+  | Un _ e1 | BinS _ e1 _ | AbsE e1 | AttrE _ e1 | CallE e1 _ _ | FunE _ e1 => leaves e1
   | Bin _ e1 e2 => leaves e1 ++ leaves e2
   | BinI _ e1 o => leaves e1 ++ [o]
   end.
@@ -140,7 +141,7 @@ Fixpoint wf (e : sexpr A) : Prop :=
   | Un d e1 => (exists f, spec_lookup d = Some (f, false, 1)) /\ wf e1
   | Bin d e1 e2 => (exists f r, spec_lookup d = Some (f, r, 2)) /\ wf e1 /\ wf e2
   | BinI d e1 _ | BinS d e1 _ => (exists f r, spec_lookup d = Some (f, r, 2)) /\ wf e1
-  | AbsE e1 | CallE e1 _ _ => wf e1
+  | AbsE e1 | CallE e1 _ _ | FunE _ e1 => wf e1
   | AttrE n e1 => n <> "__next__" /\ wf e1
   end.
 
@@ -150,7 +151,7 @@ Fixpoint wfb (e : sexpr A) : bool :=
   | Un d e1 => match spec_lookup d with Some (_, false, 1) => wfb e1 | _ => false end
   | Bin d e1 e2 => match spec_lookup d with Some (_, _, 2) => wfb e1 && wfb e2 | _ => false end
   | BinI d e1 _ | BinS d e1 _ => match spec_lookup d with Some (_, _, 2) => wfb e1 | _ => false end
-  | AbsE e1 | CallE e1 _ _ => wfb e1
+  | AbsE e1 | CallE e1 _ _ | FunE _ e1 => wfb e1
   | AttrE n e1 => negb (String.eqb n "__next__") && wfb e1
   end.
 
